@@ -1095,8 +1095,18 @@ func (x *Exec) binop(st *State, op token.Token, a, b Val, opnd types.Type, res t
 	case token.GEQ:
 		return scalar(app(sBool, ">=", at, bt), res)
 	case token.AND:
+		if a, ok := parseSMTInt(at.S); ok {
+			if b, ok := parseSMTInt(bt.S); ok && a >= 0 && b >= 0 {
+				return scalar(intLit(a&b), res)
+			}
+		}
 		return scalar(app(sInt, "bitand", at, bt), res)
 	case token.OR:
+		if a, ok := parseSMTInt(at.S); ok {
+			if b, ok := parseSMTInt(bt.S); ok && a >= 0 && b >= 0 {
+				return scalar(intLit(a|b), res)
+			}
+		}
 		return scalar(app(sInt, "bitor", at, bt), res)
 	case token.XOR:
 		return scalar(app(sInt, "bitxor", at, bt), res)
